@@ -618,6 +618,10 @@ class Ledger:
                 sd = fn.single_def(e[1])
                 if sd and sd[0] == "stmt":
                     r = _meet(r, self.ival(fn, fn.rvalue_expr(sd[3]["r"], 8, stop={"named"}), cons, depth + 1))
+                elif sd and sd[0] == "call":
+                    full = fn.local_expr(e[1], 6)          # e.g. `usize::from(x)`, which reads as a widening cast
+                    if full != e and full[0] != "local":
+                        r = _meet(r, self.ival(fn, full, cons, depth + 1))
         elif k == "cast":
             inner = self.ival(fn, e[3], cons, depth + 1)
             tr = TY_RANGE.get(e[2])
@@ -790,6 +794,52 @@ class Ledger:
                         if x[0] == "call" and str(x[1]).endswith("chunks_exact") and len(x[2]) == 2 and x[2][1][0] == "const" and isinstance(x[2][1][1], int):
                             if ix[1] < x[2][1][1] and "next(" in expr_str(ln, 600):
                                 return "guarded: element of chunks_exact(%d), index %d" % (x[2][1][1], ix[1])
+        if site.kind == "index" and str(site.extra.get("callee", "")).endswith(("::index", "::index_mut")):
+            # array[a..b] with the array's length N known from its type: needs a <= b (b - a is a sum of lengths and non-negative
+            # constants) and b <= N (a dominating comparison on b, or its interval)
+            raw_args = fn.term(site.bb).get("args", [])
+            aty = " ".join(site.extra.get("arg_tys") or [])
+            mN = re.search(r"\[\w+; (\d+)\]", aty)
+            if mN and len(raw_args) == 2:
+                rng = fn.expr(raw_args[1], 16)
+                if rng[0] == "agg" and rng[1][0] == "adt" and str(rng[1][1]).endswith("ops::range::Range") and len(rng[2]) == 2:
+                    N = int(mN.group(1))
+                    a_e, b_e = rng[2]
+                    nonneg = self._nonneg_difference(fn, b_e, a_e, cons)
+                    b_named = fn.expr(raw_args[1], 4, stop={"named"})
+                    cands = [b_e] + ([b_named[2][1]] if b_named[0] == "agg" and len(b_named[2]) == 2 else [])
+                    upper = None
+                    for cand in cands:
+                        iv = self.ival(fn, cand, cons)
+                        if iv:
+                            upper = iv[1] if upper is None else min(upper, iv[1])
+                    if nonneg and upper is not None and upper <= N:
+                        return "guarded: range start <= end (difference is a sum of lengths) and end <= %d" % N
+        if site.kind == "index" and str(site.extra.get("callee", "")).endswith(("copy_from_slice", "clone_from_slice")):
+            # destination and source have the same length as linear forms over slice lengths
+            raw_args = fn.term(site.bb).get("args", [])
+            if len(raw_args) == 2:
+                from .linear import lin as _lin
+                def lenform(e):
+                    e = kit.strip_refs(_deref_target(e))
+                    if e[0] == "call" and "Index" in str(e[1]) and re.search(r"::index(_mut)?$", str(e[1])) and len(e[2]) == 2:
+                        r_ = e[2][1]
+                        if r_[0] == "agg" and r_[1][0] == "adt" and str(r_[1][1]).endswith("ops::range::Range") and len(r_[2]) == 2:
+                            a_, b_ = _lin(r_[2][0], name=_lenname), _lin(r_[2][1], name=_lenname)
+                            d_ = dict(b_[1])
+                            for k_, v_ in a_[1].items():
+                                d_[k_] = (d_.get(k_, 0) - v_) % 65536
+                            return ((b_[0] - a_[0]) % 65536, {k_: v_ for k_, v_ in d_.items() if v_})
+                        if r_[0] == "agg" and str(r_[1][1]).endswith("ops::range::RangeFrom") and len(r_[2]) == 1:
+                            base = lenform(e[2][0])
+                            k_ = _lin(r_[2][0])
+                            if base and not k_[1]:
+                                return ((base[0] - k_[0]) % 65536, base[1])
+                        return None
+                    return (0, {_lenname(("call", "core::slice::<impl [T]>::len", (e,))) or ("len(%s)" % expr_str(e, 60)): 1})
+                d1, d2 = lenform(fn.expr(raw_args[0], 16)), lenform(fn.expr(raw_args[1], 16))
+                if d1 is not None and d1 == d2:
+                    return "guarded: destination and source lengths are the same linear form over slice lengths"
         if site.kind == "index" and len(site.operands) >= 2:
             # v[i] where i is the Some-payload of v.iter().position(..): position only returns indices of existing elements
             base = kit.strip_refs(_deref_target(site.operands[0]))
@@ -823,6 +873,27 @@ class Ledger:
                 if c[0] == "call" and c[1] and c[1].endswith("::is_some") and kit.strip_refs(c[2][0]) == x and v in (1, ("not", [0])):
                     return "guarded: dominated by is_some()"
         return None
+
+    def _nonneg_difference(self, fn, b_e, a_e, cons):
+        """is b - a >= 0 ?  b - a as a linear form whose symbols are slice lengths with positive coefficients and whose constant,
+        if negative, is covered by the lengths' lower bounds (`!x.is_empty()` gives len >= 1)"""
+        from .linear import lin as _lin
+        lb, la = _lin(b_e, name=_lenname), _lin(a_e, name=_lenname)
+        d = dict(lb[1])
+        for k_, v_ in la[1].items():
+            d[k_] = (d.get(k_, 0) - v_) % 65536
+        d = {k_: v_ for k_, v_ in d.items() if v_}
+        c0 = (lb[0] - la[0]) % 65536
+        if c0 >= 32768:
+            c0 -= 65536
+        low = c0
+        for k_, v_ in d.items():
+            if v_ >= 32768 or not k_.startswith("len("):
+                return False
+            e_ = _LEN_EXPRS.get(k_)
+            iv = self.ival(fn, e_, cons) if e_ is not None else None
+            low += v_ * (iv[0] if iv else 0)
+        return low >= 0
 
     def t_peeked(self, site):
         """toks.next().unwrap() dominated by a peek() that matched Some on the same iterator"""
@@ -921,6 +992,19 @@ def _ungetter(e):
     return tuple(_ungetter(x) if isinstance(x, tuple) else x for x in e)
 
 
+_LEN_EXPRS = {}
+
+
+def _lenname(e):
+    """symbol for slice lengths in linear forms: len(x) and PtrMetadata(x) of the same x get the same name"""
+    ce = _canon(e)
+    if isinstance(ce, tuple) and ce and ce[0] == "len":
+        nm = "len(%s)" % expr_str(ce[1], 120)
+        _LEN_EXPRS[nm] = ("call", "core::slice::<impl [T]>::len", (ce[1],))
+        return nm
+    return None
+
+
 def _canon(e):
     """PtrMetadata(x) and x.len() denote the same quantity; a trivial accessor call and the field it reads as well"""
     e = kit.strip_refs(_ungetter(e))
@@ -937,6 +1021,10 @@ def _same(a, b):
 
 def _constraint_interval(c, v, e):
     """interval of e implied by constraint (c == v)"""
+    ce = _canon(e)
+    if ce[0] == "len" and c[0] == "call" and c[1] and str(c[1]).endswith("::is_empty") and v == 0 and len(c[2]) == 1:
+        if kit.strip_refs(_deref_target(c[2][0])) == ce[1] or expr_str(kit.strip_refs(_deref_target(c[2][0]))) == expr_str(ce[1]):
+            return (1, 10**30)          # `!x.is_empty()`
     if c[0] == "bin" and c[1] in ("Lt", "Le", "Gt", "Ge", "Eq", "Ne") and v in (0, 1, ("not", [0])):
         truth = v != 0
         op = c[1]
